@@ -186,6 +186,8 @@ def model_using_rounds(base, parent, kw, relaxed):
     out_min = norm(mn) if explicit_min else p_min
     if mx is None:
         raw_max, out_max = p_max, p_max
+        if explicit_min and p_max and p_max < out_min:
+            raw_max = out_max = out_min  # new minimum above the inherited maximum: the maximum follows (warning)
     else:
         raw_max = mx
         if raw_min and mx < raw_min:
